@@ -864,7 +864,7 @@ mod eng {
             step += 1;
         }
         assert!(done, "reverse searcher must finish within 2*chars+3 steps");
-        kani::cover!(done && hy.n >= 1 && nmatch >= 2, "two matches found from the back");
+        kani::cover!(if nmax == 0 { done && nmatch == 1 } else { done && hy.n >= 1 && nmatch >= 2 }, "matches found from the back (two when there is a character)");
         core::mem::forget(re);
     }
 
@@ -890,7 +890,18 @@ mod eng {
         c20_forward_body(2);
     }
 
-    // @verif props=C20 tier=quick builds=pattern_index sub=eng timeout=3000 mem=16 unwind=6 bound="haystack <= 1 symbolic scalar, arbitrary engine table, next_back() until Done (<= 5 calls)" funcs="RegexSearcher::next_back,RegexSearcher::next,Regex::find_from"
+    // @verif props=C20 tier=quick builds=pattern_index sub=eng timeout=3000 mem=16 unwind=6 bound="EMPTY haystack, arbitrary engine table, next_back() until Done (<= 3 calls)" funcs="RegexSearcher::next_back,RegexSearcher::next,Regex::find_from"
+    // @verif stubs="MatchAttempter::try_at_pos -> arbitrary deterministic table END[offset]; BacktrackExecutor::successful_match -> Match{range, no captures, no names} (the regex has no groups)"
+    #[kani::proof]
+    #[kani::unwind(6)]
+    #[kani::stub(crate::classicalbacktrack::MatchAttempter::try_at_pos, stub_try_at_pos)]
+    #[kani::stub(crate::classicalbacktrack::BacktrackExecutor::successful_match, crate::classicalbacktrack::verif_model::successful_match_model)]
+    #[cfg(feature = "pattern")]
+    fn c20_searcher_backward_n0() {
+        c20_backward_body(0);
+    }
+
+    // @verif props=C20 tier=thorough builds=pattern_index sub=eng timeout=7200 mem=16 unwind=6 bound="haystack <= 1 symbolic scalar, arbitrary engine table, next_back() until Done (<= 5 calls)" funcs="RegexSearcher::next_back,RegexSearcher::next,Regex::find_from"
     // @verif stubs="MatchAttempter::try_at_pos -> arbitrary deterministic table END[offset]; BacktrackExecutor::successful_match -> Match{range, no captures, no names} (the regex has no groups)"
     #[kani::proof]
     #[kani::unwind(6)]
@@ -973,14 +984,23 @@ mod eng {
             )*};
         }
         same_at!(0, 1, 2, 3, 4, 5, 6, 7, 8, 9, 10);
-        kani::cover!(if all { nm >= 2 } else { nm == 1 && copied < hy.len }, "two replacements (replace: one, with text after it)");
-        kani::cover!(nm == 0 && hy.len > 0, "no match: haystack returned unchanged");
+        kani::cover!(
+            if nmax == 0 {
+                nm == 1
+            } else if all {
+                nm >= 2
+            } else {
+                nm == 1 && copied < hy.len
+            },
+            "two replacements (replace: one, with text after it; empty haystack: one)"
+        );
+        kani::cover!(nm == 0 && (nmax == 0 || hy.len > 0), "no match: haystack returned unchanged");
         kani::cover!(nm == 1 && wl == hy.len + 1, "a single empty match");
         core::mem::forget(got);
         core::mem::forget(re);
     }
 
-    // @verif props=C17 tier=quick builds=index sub=eng timeout=3000 mem=12 unwind=7 bound="replace_all: constant replacement '#', haystack <= 1 symbolic scalar value(s), arbitrary engine table" funcs="Regex::replace_all,find_iter,exec::Matches::next,expand_replacement"
+    // @verif props=C17 tier=thorough builds=index sub=eng timeout=3000 mem=12 unwind=7 bound="replace_all: constant replacement '#', haystack <= 1 symbolic scalar value(s), arbitrary engine table" funcs="Regex::replace_all,find_iter,exec::Matches::next,expand_replacement"
     // @verif stubs="MatchAttempter::try_at_pos -> arbitrary deterministic table END[offset]; BacktrackExecutor::successful_match -> Match{range, no captures, no names} (the regex has no groups); String::{new,with_capacity,push,push_str} -> fixed 32-byte buffer model, capacity overflow asserted"
     #[kani::proof]
     #[kani::unwind(7)]
@@ -994,7 +1014,7 @@ mod eng {
         c17_splice_body(true, true, 1);
     }
 
-    // @verif props=C17 tier=quick builds=index sub=eng timeout=3000 mem=12 unwind=7 bound="replace_all_with: constant replacement '#', haystack <= 1 symbolic scalar value(s), arbitrary engine table" funcs="Regex::replace_all_with,find_iter,exec::Matches::next"
+    // @verif props=C17 tier=thorough builds=index sub=eng timeout=3000 mem=12 unwind=7 bound="replace_all_with: constant replacement '#', haystack <= 1 symbolic scalar value(s), arbitrary engine table" funcs="Regex::replace_all_with,find_iter,exec::Matches::next"
     // @verif stubs="MatchAttempter::try_at_pos -> arbitrary deterministic table END[offset]; BacktrackExecutor::successful_match -> Match{range, no captures, no names} (the regex has no groups); String::{new,with_capacity,push,push_str} -> fixed 32-byte buffer model, capacity overflow asserted"
     #[kani::proof]
     #[kani::unwind(7)]
@@ -1090,5 +1110,33 @@ mod eng {
     #[kani::stub(crate::classicalbacktrack::BacktrackExecutor::successful_match, crate::classicalbacktrack::verif_model::successful_match_model)]
     fn c17_splice_replace_with_n2() {
         c17_splice_body(false, false, 2);
+    }
+
+    // @verif props=C17 tier=quick builds=index sub=eng timeout=1800 mem=10 unwind=5 bound="replace_all: constant replacement '#', EMPTY haystack, arbitrary engine table (match or no match at offset 0)" funcs="Regex::replace_all,find_iter,exec::Matches::next,expand_replacement"
+    // @verif stubs="MatchAttempter::try_at_pos -> arbitrary deterministic table END[offset]; BacktrackExecutor::successful_match -> Match{range, no captures, no names} (the regex has no groups); String::{new,with_capacity,push,push_str} -> fixed 32-byte buffer model, capacity overflow asserted"
+    #[kani::proof]
+    #[kani::unwind(5)]
+    #[kani::stub(std::string::String::push, super::stub_string_push)]
+    #[kani::stub(std::string::String::push_str, super::stub_string_push_str)]
+    #[kani::stub(std::string::String::with_capacity, super::stub_string_with_capacity)]
+    #[kani::stub(std::string::String::new, super::stub_string_new)]
+    #[kani::stub(crate::classicalbacktrack::MatchAttempter::try_at_pos, stub_try_at_pos)]
+    #[kani::stub(crate::classicalbacktrack::BacktrackExecutor::successful_match, crate::classicalbacktrack::verif_model::successful_match_model)]
+    fn c17_splice_replace_all_n0() {
+        c17_splice_body(true, true, 0);
+    }
+
+    // @verif props=C17 tier=quick builds=index sub=eng timeout=1800 mem=10 unwind=5 bound="replace_all_with: constant replacement '#', EMPTY haystack, arbitrary engine table (match or no match at offset 0)" funcs="Regex::replace_all_with,find_iter,exec::Matches::next"
+    // @verif stubs="MatchAttempter::try_at_pos -> arbitrary deterministic table END[offset]; BacktrackExecutor::successful_match -> Match{range, no captures, no names} (the regex has no groups); String::{new,with_capacity,push,push_str} -> fixed 32-byte buffer model, capacity overflow asserted"
+    #[kani::proof]
+    #[kani::unwind(5)]
+    #[kani::stub(std::string::String::push, super::stub_string_push)]
+    #[kani::stub(std::string::String::push_str, super::stub_string_push_str)]
+    #[kani::stub(std::string::String::with_capacity, super::stub_string_with_capacity)]
+    #[kani::stub(std::string::String::new, super::stub_string_new)]
+    #[kani::stub(crate::classicalbacktrack::MatchAttempter::try_at_pos, stub_try_at_pos)]
+    #[kani::stub(crate::classicalbacktrack::BacktrackExecutor::successful_match, crate::classicalbacktrack::verif_model::successful_match_model)]
+    fn c17_splice_replace_all_with_n0() {
+        c17_splice_body(true, false, 0);
     }
 }
